@@ -63,12 +63,22 @@ def gen_case(rng, tier="quick"):
         m["subdiv"] = _pick(rng, [None, None, 8])
         names = ["hamiltonian"] + (["gamma", "lindblad"]
                                    if m["dissipation"] else [])
+        if rng.random() < 0.25:
+            m["bath_kind"] = "customsd"
+            m["zeta"] = 1.0
         for _ in range(nops):
-            k = _pick(rng, ["compute", "get", "fault"], [5, 2, 3])
+            k = _pick(rng, ["compute", "get", "fault", "compute_grid"],
+                      [5, 2, 3, 2])
             if k == "compute":
                 ops.append(["compute", rng.randrange(0, n + 1)])
+            elif k == "compute_grid":
+                # a target exactly on the time grid (k * dt)
+                ops.append(["compute", rng.randrange(0, n + 1), "grid"])
             elif k == "get":
                 ops.append(["get"])
+            elif m.get("bath_kind") == "customsd" and rng.random() < 0.5:
+                ops.append(["arm_fault", "spectral_density", "call",
+                            int(round(10 ** rng.uniform(0, 3.3)))])
             elif m["system"] == "td":
                 ops.append(["arm_fault", _pick(rng, names), "step",
                             rng.randrange(0, n)])
@@ -194,11 +204,24 @@ def _act(m):
     return float("inf") if a == "inf" else float(a)
 
 
-def _bath(m):
+def _bath(m, plan=None):
     import oqupy
     o = models.ops()
-    corr = oqupy.PowerLawSD(alpha=m["alpha"], zeta=m["zeta"],
-                            cutoff=m["cutoff"], temperature=m["temperature"])
+    if m.get("bath_kind") == "customsd":
+        # the spectral density is a user callable too: the influence
+        # functionals beyond the precomputed ones are evaluated lazily,
+        # inside a step
+        def j(w):
+            return 2.0 * m["alpha"] * w
+        jf = j if plan is None else models.faulty(
+            "spectral_density", j, plan, None)
+        corr = oqupy.CustomSD(jf, cutoff=m["cutoff"],
+                              cutoff_type="exponential",
+                              temperature=m["temperature"])
+    else:
+        corr = oqupy.PowerLawSD(alpha=m["alpha"], zeta=m["zeta"],
+                                cutoff=m["cutoff"],
+                                temperature=m["temperature"])
     return oqupy.Bath(0.5 * o[m["coupling"]], corr)
 
 
@@ -235,7 +258,7 @@ def build_tempo(m, plan):
     pars = oqupy.TempoParameters(dt=dt, epsrel=m["epsrel"], dkmax=m["dkmax"],
                                  add_correlation_time=_act(m),
                                  subdiv_limit=m["subdiv"])
-    return oqupy.Tempo(system, _bath(m), pars, _initial(m), t0,
+    return oqupy.Tempo(system, _bath(m, plan), pars, _initial(m), t0,
                        unique=m["unique"])
 
 
@@ -553,13 +576,21 @@ def run_case(case, dec):
             log.ev("restart", step)
         elif kind == "compute":
             k = op[1]
+            t_target = None
+            if len(op) > 2 and op[2] == "grid" and method != "pt_tebd":
+                # exactly on the grid: the step count is whatever the
+                # documented truncation int((t - start)/dt) gives (its float
+                # behaviour is C13's subject; here only split == single)
+                t_target = m["start_time"] + k * m["dt"]
+                k = max(0, int((t_target - m["start_time"]) / m["dt"]))
             fired_before = len(plan.fired)
             before = _dyn_arrays(method, obj)
             try:
                 if method == "pt_tebd":
                     obj.compute(m["start_step"] + k, progress_type="silent")
                 else:
-                    obj.compute(_target_time(m, k), progress_type="silent")
+                    obj.compute(_target_time(m, k) if t_target is None
+                                else t_target, progress_type="silent")
                 raised = None
             except InjectedFault:
                 raised = "InjectedFault"
@@ -592,6 +623,12 @@ def run_case(case, dec):
             if m.get("dkmax") is not None and reached > m["dkmax"]:
                 stats["crossed_dkmax"] = 1
             got = _dyn_arrays(method, obj)
+            if got is None:
+                viol("silently_different_after_fault" if plan.fired
+                     else "history_changes_result", "%s/no-dynamics" % method,
+                     "compute(target step %d) returned without error but the "
+                     "object has no dynamics at all" % k)
+                continue
             before_upto = offset if before is None else \
                 offset + len(before[0]) - 1
             want_upto = max(k, before_upto)
